@@ -78,7 +78,11 @@ def check(arg):
                 o.prefix = f"{quad(a)}/{l}"
                 o.ipnets()
     try:
-        res = mod.collapse(objs)
+        # the argument may be any iterable of addresses (one-shot iterators included): every third case passes one
+        kind_ = (len(nets) + (nets[0][0] >> 4) + nets[0][1]) % 3 if history == "fresh" else 0
+        arg_ = objs if kind_ == 0 else (iter(objs) if kind_ == 1 else (o for o in objs))
+        inputs["argument"] = ["list", "iterator", "generator"][kind_]
+        res = mod.collapse(arg_)
         if history != "fresh":
             res2 = mod.collapse(objs)
             if [o.line for o in res2] != [o.line for o in res]:
